@@ -73,6 +73,9 @@ func hostileDecimal(r *rng.R, c dec.Ctx, extreme bool) dec.D {
 // numericString draws strings for the parsers: grammatical sentences,
 // single-byte mutations of them, fragment concatenations and random bytes.
 func numericString(r *rng.R) string {
+	if r.Chance(1, 8000) {
+		return giantString(r)
+	}
 	g := grammarSentence(r)
 	switch r.Pick(35, 40, 10, 15) {
 	case 0:
